@@ -5,7 +5,25 @@ import os
 
 ROOT = os.path.dirname(os.path.dirname(os.path.abspath(__file__)))
 
+A = 'symbolic execution of the real Python (CrossHair 0.0.110) with z3 deciding every path; '
 CLAIMED = {
+    'C01': dict(
+        text='z3 shows on every path of the real Estimate/ThermochemGroupAdditive code that each property is the '
+             'count-weighted sum (or the incomplete-data error), and that missing descriptors are named exactly, for all '
+             'real-valued counts/contributions within the size bound; for each of the nine shipped libraries the whole '
+             'count vector over every group with data is symbolic at concrete temperatures. Bounded (<= 4 synthetic '
+             'descriptors), not a proof.',
+        note='float := real; shipped constituents evaluated concretely outside the tracer (concrete T); non-empty range '
+             'intersection assumed',
+        technique=A + 'symbolic real counts and values', ref='DESIGN.md 4/C01'),
+    'C05': dict(
+        text='For tables of 1..4 points with all values symbolic reals (any supply order, any placement of T_ref and T), '
+             'z3 decides the enthalpy/entropy integral identities against an independently written antiderivative, Cp '
+             'reproduction, reference values, G = H - S and order independence on every path of the real constructors '
+             'and getters. Bounded model checking; larger tables are outside the claim.',
+        note='float := real; FITPACK/QUADPACK/np.log behind PolySpline/QuadStub/uninterpreted LN (validated concretely); '
+             'obligations that exhaust their budget are reported inconclusive',
+        technique=A + 'nonlinear real arithmetic, uninterpreted LN with ratio axioms', ref='DESIGN.md 4/C05'),
     'C06': dict(
         text='For every value of the symbolic reals (range bounds, reference temperature, table points in any supply '
              'order, evaluation temperature, counts) within the size bound, z3 shows on every path of the real '
@@ -14,8 +32,50 @@ CLAIMED = {
              'code; not a proof (tables <= 4 points, estimates <= 3 constituents).',
         note='float modelled as real; FITPACK/QUADPACK/np.log behind PolySpline/QuadStub/uninterpreted LN (validated '
              'concretely each run); scalar T only',
-        technique='symbolic execution of the real Python (CrossHair) with z3 deciding every path; reals for all numeric inputs',
-        ref='DESIGN.md 4/C06'),
+        technique=A + 'reals for all numeric inputs', ref='DESIGN.md 4/C06'),
+    'C07': dict(
+        text='For every key of the installed gas-constant table, z3 shows for all real T and non-dimensional values that '
+             'H, S, Cp, G are the stated products; the elemental-entropy clause is decided for all molecules of <= 4 '
+             'atoms over six elements with symbolic hydrogen count. Bounded.',
+        note='float := real; fake Chem (AddHs/GetAtoms/GetAtomicNum) validated against RDKit',
+        technique=A + 'symbolic reals; unit table enumerated as configuration', ref='DESIGN.md 4/C07'),
+    'C09': dict(
+        text='The real parser and readers are executed on text with a symbolic hole (every Unicode string of <= k '
+             'characters at a cut point of 12 seed texts, and whole texts of <= 3-4 characters); z3 decides every path: '
+             'the outcome is a query, a RING error with an in-text position, or NotImplementedError; never a hang (fuel), '
+             'never another exception, never partial consumption. Bounded (one hole, k <= 3).',
+        note='HoleStr symbolic buffer stands in for str (validated against str each run); RDKit behind fakes honouring its '
+             'error contract; every counterexample replayed through the real Read with real RDKit under a time limit',
+        technique=A + 'symbolic characters over all of Unicode in a fixed-length buffer', ref='DESIGN.md 4/C09'),
+    'C10': dict(
+        text='UnitsDB.lookup is translated from its AST to z3 string constraints and decided for every string of length '
+             '<= 16; the expression parser/evaluator is executed on every token sequence up to length 3-4 with symbolic '
+             'real numerals against an independent evaluator; conversions are decided for symbolic magnitudes. The unit '
+             'table itself is compared concretely with an independent SI table. Bounded.',
+        note='regex tokeniser bypassed (validated); float := real; definition table is configuration, checked by comparison',
+        technique='AST->z3 (sequence theory) for lookup; ' + A + 'symbolic magnitudes', ref='DESIGN.md 4/C10',
+        engine='crosshair-z3'),
+    'C11': dict(
+        text='For every ordered pair of 15 dimensions (and plain numbers) and 27 operator forms, z3 decides for all real '
+             'magnitudes that compatible operands behave as numbers and incompatible ones raise / compare unequal, with '
+             'exact dimension exponents of products, quotients and powers. Exhaustive over the finite dimension table, '
+             'universal over magnitudes.',
+        note='float := real; scalar quantities only; debug print/str of quantities stubbed',
+        technique=A + 'symbolic real magnitudes, dimension table enumerated by the solver', ref='DESIGN.md 4/C11'),
+    'C17': dict(
+        text='The real work-list loop of GenerateRxnNet runs over abstract species with a symbolic successor relation '
+             '(<= 4 species, <= 2 rules, <= 2 products per application) and symbolic valence flags; z3-driven exploration '
+             'of every relation shows the result is the duplicate-free closure and that generation terminates (fuel). '
+             'Bounded exhaustive.',
+        note='RDKit replaced by fakes (identity = mutual substructure test, validated on real molecules); the real '
+             'function is also replayed on ethane with real RDKit',
+        technique=A + 'symbolic successor relation (solver-enumerated)', ref='DESIGN.md 4/C17'),
+    'C20': dict(
+        text='z3 shows that the radicand handed to sqrt equals RMSE^2 * x.M.x for symbolic real counts and RMSE (concrete '
+             'and symbolic 3x3 M; concrete shipped M on seeded basis subsets), that scaling multiplies it by c^2, that '
+             'mapping order is irrelevant and that an out-of-basis descriptor raises. Bounded.',
+        note='numpy behind a list-based array shim; sqrt uninterpreted; the real numpy path is replayed concretely',
+        technique=A + 'polynomial identities over the reals', ref='DESIGN.md 4/C20'),
 }
 
 NOT_APPLICABLE = {
